@@ -75,6 +75,11 @@ func (i *Inflight) GetAll(immediate bool) []packets.Packet {
 	i.RLock()
 	defer i.RUnlock()
 
+	return i.getAll(immediate)
+}
+
+// getAll returns all the inflight messages; the caller holds the lock.
+func (i *Inflight) getAll(immediate bool) []packets.Packet {
 	m := []packets.Packet{}
 	for _, v := range i.internal {
 		if !immediate || (immediate && v.Expiry < 0) {
@@ -96,7 +101,7 @@ func (i *Inflight) NextImmediate() (packets.Packet, bool) {
 	i.RLock()
 	defer i.RUnlock()
 
-	m := i.GetAll(true)
+	m := i.getAll(true) // the read lock is already held: GetAll would acquire it a second time
 	if len(m) > 0 {
 		return m[0], true
 	}
